@@ -38,6 +38,9 @@ def run_inprocess(argv, stdin_file=None):
                 c = e.code
                 status = 0 if c is None else (c & 0xFF if isinstance(c, int) else 1)
             except BaseException as e:  # noqa
+                from .watchdog import RunTimeout
+                if isinstance(e, (RunTimeout, KeyboardInterrupt, MemoryError)):
+                    raise
                 status = 1
                 err.write("CRASH %s: %s" % (type(e).__name__, e))
     finally:
